@@ -141,6 +141,7 @@ def check(ctx):
     ctx.extra["trace_events_by_kind"] = kinds
     ctx.extra["long_garbage_cases"] = info["long_garbage"]
     ctx.extra["trailing_garbage_grid_cases"] = info["tail_grid_cases"]
+    ctx.extra["refill_boundary_cases"] = info["refill_boundary_cases"]
     ctx.extra["cases_with_logger_attached"] = info["cases_with_logger"]
     if info["cases_with_logger"] == 0 and not ctx.violations:
         raise c.ToolError("vacuity: no case ran the iterator with a logger attached")
